@@ -50,7 +50,11 @@ def violations_of(prop, root):
     mod = importlib.import_module(f'rules.{prop}')
     P = Program(root)
     res = report.Results(prop, 'quick')
-    mod.run(P, res, 'quick')
+    try:
+        mod.run(P, res, 'quick')
+    except AnalysisError:
+        if not any(o.status == 'violated' for o in res.obs):
+            raise
     return {(o.rule, o.site, o.construct, o.detail) for o in res.obs if o.status == 'violated'}
 
 
